@@ -71,6 +71,7 @@ func (o *Obligation) OK() bool {
 }
 
 type FV struct {
+	keepCounters map[string]bool // non-nil: havocAll preserves every bump: ghost counter NOT in this set (the callee cannot bump it on behalf of verified code)
 	eng  *Engine
 	u    *FuncUnit
 	s    *Script
@@ -264,6 +265,13 @@ func (eng *Engine) verifyFunc(u *FuncUnit) (rep *FuncReport) {
 		}
 	}()
 	fv.run()
+	if u.C != nil && !u.C.Trusted {
+		for _, pc := range u.C.PreCalls {
+			if fv.siteCount["precall"+pc.Cl.Label] == 0 {
+				fv.specErr(fmt.Sprintf("precall clause %q matches no call in %s (contract out of date?)", pc.Re.String(), u.Name()))
+			}
+		}
+	}
 	rep.GenSecs = time.Since(start).Seconds()
 	t1 := time.Now()
 	eng.discharge(fv)
